@@ -93,7 +93,10 @@ st('htp_connp_REQ_FINALIZE', ['C06', 'C09', 'C16', 'C01'], 'after a complete req
           1: dict(assigns='pos', inv=['pos <= len'], dec='len - pos'),
           2: dict(assigns='pos', inv=['pos <= len', 'mstart <= pos'], dec='len - pos')})
 
-UNITS.append(U(name='htp_connp_REQ_HEADERS', props=['C10', 'C09', 'C01'], kind='contract', src=['htp_request.c'], link=['htp_util.c', 'bstr.c'], enforce='htp_connp_REQ_HEADERS',
+import os as _os
+# does not close within 1 h (coarse whole-object havoc inside the for(;;) loop plus ten stubs): kept for further work, not registered
+if _os.environ.get('SM_EXPERIMENTAL'):
+  UNITS.append(U(name='htp_connp_REQ_HEADERS', props=['C10', 'C09', 'C01'], kind='contract', src=['htp_request.c'], link=['htp_util.c', 'bstr.c'], enforce='htp_connp_REQ_HEADERS',
                replace=['htp_connp_req_consolidate_data', 'htp_connp_req_clear_buffer', 'htp_process_request_header_generic/contract_site_process_request_header',
                         'htp_connp_is_line_terminator', 'htp_connp_is_line_folded', 'htp_chomp', 'bstr_dup_mem/contract_site_bstr_dup_mem', 'bstr_add_mem/contract_site_bstr_add_mem',
                         'htp_tx_state_request_headers/contract_site_htp_tx_state_request_headers', 'htp_log'],
